@@ -1,3 +1,4 @@
 import Props.C12
 import Props.C09
 import Props.C11
+import Props.C06
